@@ -29,7 +29,10 @@
 //!   WebTransport uni streams accepted so far (`<session>:<hex>:<open|fin|rst<c>>,…`); <task>.kill drops
 //!   the task's future, <task>.kill? does the same but tolerates a task that does not exist (any more)
 //!   WebTransport (server, after `conn.WT`): `conn.sid|ob[:<session>]|ou[:<session>]|ab|au|dgs:<hex>|dgr`; peer datagram
-//!   `d:<hex>`; one task `w<sid>` per opened / accepted stream: `rd` one poll_data, `ra` poll_data to the end, `wr:<hex>`
+//!   `d:<hex>`; `dq:<mode>` what the transport answers to `send_datagram` (ok | na | tl | max=<n> | C<code> | T | I | U; C18);
+//!   `conn.dgs` / `drv.dgs:<stream id>:<hex>[,<hex>…]` and `conn.dgr` / `drv.dgr[:<n>]` on a plain server / client connection
+//!   (h3-datagram `server.rs` / `client.rs`; one sender / reader per op; `dgs` answers ok | not-available | too-large |
+//!   err:conn:<class> per payload); one task `w<sid>` per opened / accepted stream: `rd` one poll_data, `ra` poll_data to the end, `wr:<hex>`
 //!   poll_send, `fi` poll_finish; the `AsyncRead` / `AsyncWrite` faces (added for C19):
 //!   `rf:<n1>,<n2>,…[:<calls>]` / `rt:…` read through futures / tokio `poll_read` with caller buffers of these sizes
 //!   (cycling) to the end or for <calls> completed calls → `data:<hex>:n=<bytes per call>:<end|more|err:rterm:<c>|err:conn>`;
@@ -106,6 +109,68 @@ pub fn render_conn_err(e: &ConnectionError) -> String {
         ConnectionError::Timeout => "timeout".into(),
         _ => "other".into(),
     }
+}
+
+/// the variant of `SendDatagramError` with its class and code (added for C18)
+pub fn render_dgram_send_err(e: &h3_datagram::datagram_handler::SendDatagramError) -> String {
+    use h3_datagram::datagram_handler::SendDatagramError as E;
+    match e {
+        E::NotAvailable { .. } => "not-available".into(),
+        E::TooLarge { .. } => "too-large".into(),
+        E::ConnectionError { 0: c, .. } => format!("err:conn:{}", render_conn_err(c)),
+        _ => "err:other".into(),
+    }
+}
+
+/// `send_datagram` for every payload of `<hex>[,<hex>…]` through ONE sender, answers joined by `,`
+fn dgram_send_all<H: h3_datagram::quic_traits::SendDatagram<Bytes>>(
+    mut snd: h3_datagram::datagram_handler::DatagramSender<H, Bytes>,
+    arg: &str,
+) -> String {
+    let mut out = Vec::new();
+    for h in arg.split(',') {
+        out.push(match snd.send_datagram(Bytes::from(parse_hex(h).unwrap_or_default())) {
+            Ok(()) => "ok".to_string(),
+            Err(e) => render_dgram_send_err(&e),
+        });
+    }
+    out.join(",")
+}
+
+/// `<sid>:<hex>[,<hex>…]` of the `dgs` op of a plain connection task
+fn dgram_sid_arg(arg: &str) -> Option<(h3::quic::StreamId, &str)> {
+    let (sid, rest) = arg.split_once(':')?;
+    let sid = h3::quic::StreamId::try_from(sid.parse::<u64>().ok()?).ok()?;
+    Some((sid, rest))
+}
+
+/// `read_datagram` `<n>` times (default once) through ONE reader: `dg:<sid>:<hex>` each, joined by `,`; stops at an error
+async fn dgram_read_all<H: h3_datagram::quic_traits::RecvDatagram>(
+    mut rd: h3_datagram::datagram_handler::DatagramReader<H>,
+    arg: &str,
+) -> String
+where
+    H::Buffer: Buf,
+{
+    let n = arg.parse::<usize>().unwrap_or(1).max(1);
+    let mut out = Vec::new();
+    for _ in 0..n {
+        match rd.read_datagram().await {
+            Ok(d) => {
+                let mut p = d.payload().chunk().to_vec();
+                if p.len() != d.payload().remaining() {
+                    p.clear();
+                    p.extend_from_slice(b"non-contiguous");
+                }
+                out.push(format!("dg:{}:{}", d.stream_id().into_inner(), to_hex(&p)))
+            }
+            Err(e) => {
+                out.push(render_stream_err(&e));
+                break;
+            }
+        }
+    }
+    out.join(",")
 }
 
 pub fn render_stream_err(e: &StreamError) -> String {
@@ -486,6 +551,22 @@ async fn server_conn_task(builder: h3::server::Builder, mb: Mailbox, ctx: Ctx) {
             "U" => {
                 let r = drain_wt_uni(conn.inner.accepted_streams_mut());
                 ctx.log(&name, "U", r);
+            }
+            // datagrams on a plain connection (h3-datagram `server.rs`, added for C18):
+            // dgs:<stream id>:<hex>[,<hex>…]   dgr[:<n>]
+            "dgs" => {
+                use h3_datagram::datagram_handler::HandleDatagramsExt;
+                let r = match dgram_sid_arg(arg) {
+                    Some((sid, rest)) => dgram_send_all(conn.get_datagram_sender(sid), rest),
+                    None => "bad-cmd".into(),
+                };
+                ctx.log(&name, "dgs", r);
+            }
+            "dgr" => {
+                use h3_datagram::datagram_handler::HandleDatagramsExt;
+                ctx.begin(&name, "dgr");
+                let r = dgram_read_all(conn.get_datagram_reader(), arg).await;
+                ctx.log(&name, "dgr", r);
             }
             "D" => {
                 ctx.log(&name, "D", "ok".into());
@@ -1055,17 +1136,16 @@ async fn wt_session_task(sess: WtSession, mb: Mailbox, ctx: Ctx) {
                 };
                 ctx.log(&name, "ou", r);
             }
+            // dgs:<hex>[,<hex>…]  one sender, one `send_datagram` per payload; the answer names the
+            // `SendDatagramError` variant with class and code (C18; it used to be `ok|err`)
             "dgs" => {
-                let r = sess.datagram_sender().send_datagram(Bytes::from(parse_hex(arg).unwrap_or_default()));
-                ctx.log(&name, "dgs", if r.is_ok() { "ok".into() } else { "err".into() });
+                let r = dgram_send_all(sess.datagram_sender(), arg);
+                ctx.log(&name, "dgs", r);
             }
+            // dgr[:<n>]  one reader, n reads (default 1)
             "dgr" => {
                 ctx.begin(&name, "dgr");
-                let mut rd = sess.datagram_reader();
-                let r = match rd.read_datagram().await {
-                    Ok(d) => format!("dg:{}:{}", d.stream_id().into_inner(), to_hex(d.payload())),
-                    Err(e) => render_stream_err(&e),
-                };
+                let r = dgram_read_all(sess.datagram_reader(), arg).await;
                 ctx.log(&name, "dgr", r);
             }
             _ => ctx.log(&name, op, "bad-cmd".into()),
@@ -1217,8 +1297,24 @@ async fn client_conn_task(mut builder: h3::client::Builder, mb: Mailbox, ctx: Ct
         } else {
             NextCmd(mb.clone()).await
         };
-        let (op, _arg) = cmd.split_once(':').unwrap_or((&cmd, ""));
+        let (op, arg) = cmd.split_once(':').unwrap_or((&cmd, ""));
         match op {
+            // datagrams on the client's connection (h3-datagram `client.rs`, added for C18):
+            // dgs:<stream id>:<hex>[,<hex>…]   dgr[:<n>]
+            "dgs" => {
+                use h3_datagram::datagram_handler::HandleDatagramsExt;
+                let r = match dgram_sid_arg(arg) {
+                    Some((sid, rest)) => dgram_send_all(drv.get_datagram_sender(sid), rest),
+                    None => "bad-cmd".into(),
+                };
+                ctx.log(&name, "dgs", r);
+            }
+            "dgr" => {
+                use h3_datagram::datagram_handler::HandleDatagramsExt;
+                ctx.begin(&name, "dgr");
+                let r = dgram_read_all(drv.get_datagram_reader(), arg).await;
+                ctx.log(&name, "dgr", r);
+            }
             "W" => driving = true,
             "WS" => driving = false,
             "S" => {
@@ -1450,6 +1546,14 @@ impl Run {
                 n.peer_stop(id, c);
                 true
             }
+            // dq:<mode>  what the transport answers to `send_datagram` from now on (sim.rs `DgMode`, added for C18)
+            Some(b'd') if op.starts_with("dq:") => match parse_dg_mode(&op[3..]) {
+                Some(m) => {
+                    n.dgram_send_mode = m;
+                    true
+                }
+                None => false,
+            },
             Some(b'd') if op.starts_with("d:") => match parse_hex(&op[2..]) {
                 Some(bytes) => {
                     n.peer_datagram(Bytes::from(bytes));
